@@ -191,17 +191,6 @@ static int prepare_acf_packet(uint8_t* acf_pdu,
                       (uint64_t)now.tv_nsec + (uint64_t)(now.tv_sec * 1e9));
     Avtp_Can_SetField(pdu, AVTP_CAN_FIELD_MTV, 1U);
 
-    // Set required CAN Flags
-    can_id = (can_variant == AVTP_CAN_FD) ? frame.fd.can_id : frame.cc.can_id;
-    Avtp_Can_SetField(pdu, AVTP_CAN_FIELD_RTR, can_id & CAN_RTR_FLAG);
-    Avtp_Can_SetField(pdu, AVTP_CAN_FIELD_EFF, can_id & CAN_EFF_FLAG);
-
-    if (can_variant == AVTP_CAN_FD) {
-        Avtp_Can_SetField(pdu, AVTP_CAN_FIELD_BRS, frame.fd.flags & CANFD_BRS);
-        Avtp_Can_SetField(pdu, AVTP_CAN_FIELD_FDF, frame.fd.flags & CANFD_FDF);
-        Avtp_Can_SetField(pdu, AVTP_CAN_FIELD_ESI, frame.fd.flags & CANFD_ESI);
-    }
-
     // Copy payload to ACF CAN PDU
     if(can_variant == AVTP_CAN_FD)
         Avtp_Can_CreateAcfMessage(pdu, frame.fd.can_id & CAN_EFF_MASK, frame.fd.data,
@@ -209,6 +198,18 @@ static int prepare_acf_packet(uint8_t* acf_pdu,
     else
         Avtp_Can_CreateAcfMessage(pdu, frame.cc.can_id & CAN_EFF_MASK, frame.cc.data,
                                          frame.cc.len, can_variant);
+
+    // Set required CAN Flags. This is done after the message was created since
+    // the creation derives EFF and FDF from the identifier and the CAN variant.
+    can_id = (can_variant == AVTP_CAN_FD) ? frame.fd.can_id : frame.cc.can_id;
+    Avtp_Can_SetField(pdu, AVTP_CAN_FIELD_RTR, (can_id & CAN_RTR_FLAG) != 0);
+    Avtp_Can_SetField(pdu, AVTP_CAN_FIELD_EFF, (can_id & CAN_EFF_FLAG) != 0);
+
+    if (can_variant == AVTP_CAN_FD) {
+        Avtp_Can_SetField(pdu, AVTP_CAN_FIELD_BRS, (frame.fd.flags & CANFD_BRS) != 0);
+        Avtp_Can_SetField(pdu, AVTP_CAN_FIELD_FDF, (frame.fd.flags & CANFD_FDF) != 0);
+        Avtp_Can_SetField(pdu, AVTP_CAN_FIELD_ESI, (frame.fd.flags & CANFD_ESI) != 0);
+    }
 
     return Avtp_Can_GetAcfMsgLength(pdu)*4;
 }
